@@ -89,13 +89,13 @@ CHECKS = {
     "C14": {
         "modules": ["PGV.Props.C14"],
         "audits": ["PGV/Audit/C14.lean"],
-        "streams": ["ruletext"],
+        "streams": ["ruletext", "ruletext-exh"],
         "thorough_seeds": 4,
         "assumptions": [
             "rule keys contain none of , ' = | ; values contain no | ' , (commas allowed in re patterns) and do not start with =; messages contain no , '",
             "Go map semantics of RM modelled as an association list",
         ],
-        "explanation": "theorems over all byte strings / all well-formed rule lists; stream ruletext compares ValidNamesSplit, ParseValidNameKV, GenValidKV, RM.Set/Get and the whole pipeline with the model and evaluates the spec on the implementation's output",
+        "explanation": "theorems over all byte strings / all well-formed rule lists; stream ruletext compares ValidNamesSplit, ParseValidNameKV, GenValidKV, RM.Set/Get and the whole pipeline with the model and evaluates the spec on the implementation's output; ruletext-exh does the same for EVERY string over {a , ' = | /} up to length 6 (quick) / 8 (thorough)",
     },
 }
 
